@@ -25,6 +25,28 @@ Sub-checks
     Weaker readings: nothing is asserted about spaces that replace a cut double-width character (layout
     ``(n, offs)`` segments, window edges of clipped lines) nor about zero-width characters at the edge of a clip
     window; where the displayed geometry differs from the layout (C03's subject) the column is skipped and counted.
+``clip`` / ``clip_short``  (clause a, "clipping ... never shift[s] an attribute onto a neighbouring character")
+    The same markup cases, but the rendered Text is looked at through a *view that clips it*: (1) ``ops``: a
+    history of ``pad_trim_left_right`` / ``pad_trim_top_bottom`` (negative = trim, positive = pad, both documented) /
+    ``fill_attr_apply`` / ``fill_attr`` calls on ``CompositeCanvas(text canvas)``, compared after every step;
+    (2) ``content``: ``TextCanvas.content(trim_left, trim_top, cols, rows, attr)`` (what a composite canvas asks
+    of a partially obscured canvas); (3) ``overlay``: an ``Overlay`` whose top widget (``AttrMap(SolidFill, 'TOP')``)
+    covers a rectangle of ``Filler(Text, 'top')`` (optionally inside an ``AttrMap``); (4) ``padclip``:
+    ``Padding(Text, align='left'|'right', width='clip').render((cols,))`` (documented clipping mode: clipped, or
+    padded, on the side away from the alignment).  Oracle: a *model* of expected cells, built from the source walk
+    and the documented layout structure exactly as in ``markup`` and then sliced / padded / mapped with list
+    operations (``_m_lr``, ``_m_tb``, ``_m_map``) -- ``trim_text_attr_cs``, ``calc_trim_text``, ``shards_trim_*``
+    are not used.  Per column of the view:
+      * a character wholly inside the view carries its innermost tag (through the maps)       -> ``char-attr``
+      * a one-column blank standing in for a double-width character that a view edge cuts carries that
+        character's attribute (through the maps), not a neighbour's                            -> ``clip-standin-attr``
+      * columns added by padding (and the Text's own alignment / fill columns) carry None, or what the maps
+        applied *afterwards* make of None                                                      -> ``padding-attr``
+      * columns of the Overlay's top widget carry the top widget's attribute                   -> ``overlay-top-attr``
+      * ellipsis mark columns and zero-width characters inside the view as in ``markup``.
+    Weaker readings: the stand-in cell may also carry None (read as a fill cell) or the attribute of a zero-width
+    character that follows the cut character (it shares the cell); cells the *layout* already cut (wrap='clip'
+    ``(n, offs)`` segments) and zero-width characters sitting on a view edge are not asserted.
 ``maps``  (clause b)
     Trees of Text / Pile / Columns / AttrMap / AttrWrap; every AttrMap/AttrWrap sits between two recording
     ``WidgetWrap`` probes which snapshot the focus flag and the cell grid (``vlib.cells``) of the canvas passing
@@ -74,8 +96,17 @@ RULE = (
     "markup_short: exhaustive strings of length <= 4 over 5 letters (quick) / <= 5 over 6 letters (thorough) per "
     "encoding (a, space, newline, double-width, combining or Latin-1 ...), every character its own tag (attributes "
     "A..E cycling; second form with every other character untagged; third form with neighbours sharing a tag), "
-    "x width 1..4 (1..6) x 4 wrap modes x 3 alignments x str/bytes x 3 encodings. markup / maps / sgr: Hypothesis draws a byte tape that a deterministic "
-    "builder turns into the JSON case. markup: nested markup (lists/tuples to depth 5, 1-5 top-level items, text "
+    "x width 1..4 (1..6) x 4 wrap modes x 3 alignments x str/bytes x 3 encodings. clip_short: exhaustive strings "
+    "of length <= 3 over the same 5 letters (<= 4 over 6, thorough), per-character tags (and every other character "
+    "untagged), str/bytes, wrap any/clip x align left/right (thorough: all) x width 1..4 (1..5) x EVERY column "
+    "window [left, left+cols) of the rendered Text through TextCanvas.content and as the rectangle covered by an "
+    "Overlay's top widget (row 0, row 1), every pair (left, right) in -(width-1)..1 that leaves a column for "
+    "CompositeCanvas.pad_trim_left_right, and Padding(width='clip', align left/right) at every width 1..natural+1. "
+    "markup / clip / maps / sgr: Hypothesis draws a byte tape that a deterministic "
+    "builder turns into the JSON case. clip: a markup case (as below, width 1..24) seen through one of: 1-4 ops "
+    "(pad_trim_left_right / pad_trim_top_bottom with each side trimmed by up to 9 or padded by up to 2, taken modulo "
+    "what is left; fill_attr_apply with 0-4 pairs; fill_attr), a content() window with optional attr mapping, an "
+    "Overlay rectangle with optional AttrMap around the bottom widget, or Padding clip at 1..12 columns. markup: nested markup (lists/tuples to depth 5, 1-5 top-level items, text "
     "pieces of 0-6 characters from vlib.gen_text alphabets incl. double-width, combining, DEC line drawing, empty "
     "strings and empty lists; attributes from a pool of str, int, tuple, None, AttrSpec) x width 1..24 x wrap x "
     "align x str/bytes x 3 encodings. maps: trees (Text leaves; Pile/Columns to depth 2; chains of 0-4 "
@@ -88,7 +119,9 @@ RULE = (
     "re-registration, settings before or after the colour, late registration) x pre/post set_terminal_properties "
     "x up to 2 further depth switches with a redraw each, 1-6 columns x 1-2 rows of cells naming entries, aliases, "
     "undefined names, None or AttrSpec objects, glyph or blank. Non-trivial: markup = a multi-byte character in a "
-    "text that has >= 2 attribute runs and a line wider than the width; maps = >= 2 maps composed on one path "
+    "text that has >= 2 attribute runs and a line wider than the width; clip = a double-width character in a text "
+    "with >= 2 attribute runs seen through a view that trims columns (counters clip:standin-cells / "
+    "clip:whole-character-cells say how many cells were asserted); maps = >= 2 maps composed on one path "
     "(widget maps plus canvas-level steps, at least one widget map); sgr = a defined entry is displayed and the palette mixes >= 2 entry forms."
 )
 ASSUMPTIONS = [
@@ -103,6 +136,10 @@ ASSUMPTIONS = [
     "empty strings and empty lists are text markup (the grammar '[markup, ...] joined together' with zero items; "
     "/repo HEAD contains the fix that makes them contribute nothing)",
     "attribute names are str, int, tuple, None or AttrSpec; no two distinct generated names compare equal",
+    "clip: pad_trim_left_right / pad_trim_top_bottom are only called with amounts that leave >= 1 column and >= 1 "
+    "row; TextCanvas.content() only with a window inside the canvas; the Overlay's top widget is placed with "
+    "('fixed left', n) / ('fixed top', n) and a given width / height that fit (no rounding involved); Padding clip "
+    "only with align 'left' / 'right' and only when Text.pack(()) agrees with the width oracle on the natural width",
     "containers are only used with widths at which every column is >= 1 wide; a case whose rendering emits a urwid "
     "sizing warning is discarded",
     "TERM=xterm for the raw display (bright_is_bold False, bright backgrounds as SGR 100-107, back_color_erase)",
@@ -449,6 +486,355 @@ def check_markup(case):
                     f"{what}: row {y}: zero-width characters after column {b - 1} carry {got!r}, their tags say "
                     f"{exp!r} (layout {segs!r}, row {runs!r})",
                 )
+
+
+# ---------------------------------------------------------------------------------------------
+# (a2) clipped views of a rendered Text: column / row windows, padding, maps -- a model of expected cells
+
+
+def _base_model(src, w, width, mode):
+    """Expected cells of Text.render((width,)) from the documented layout structure and the source walk.
+    -> (rows, zws): rows[y][c] = ("c", attr, alts, half, cw, cid) | ("pad", attr) | ("mark", attr) | ("skip",)
+    zws[y] = {column boundary: [attr, ...] | None (not asserted)}.  `alts` are further attributes a blank cell
+    standing in for the character when a window edge cuts it may carry (weaker reading, see the docstring)."""
+    layout = w.get_line_translation(width)
+    rows, zws = [], []
+    for y, segs in enumerate(layout):
+        x0, line, ezw = expected_line(src, segs, mode, None, y)
+        nline = len(line)
+        row = []
+        for c in range(width):
+            lc = x0 + c
+            e = line[lc] if lc < nline else ("pad",)
+            kind = e[0]
+            if kind == "pad":
+                row.append(("pad", None))
+            elif kind == "ins":
+                row.append(("skip",))
+            elif kind == "mark":
+                row.append(("mark", e[1]))
+            else:
+                _, e_attr, e_half, e_w = e
+                start = lc - e_half
+                if start < x0 or start + e_w > x0 + width:
+                    row.append(("skip",))  # cut by the layout's own clip window: nothing asserted (as in `markup`)
+                else:
+                    # zero-width characters that follow the character share its cell
+                    alts = (None, *ezw.get(start + e_w, ()))
+                    row.append(("c", e_attr, alts, e_half, e_w, (y, start)))
+        zw = {}
+        for k, attrs in ezw.items():
+            b = k - x0
+            if 0 <= b <= width:
+                zw[b] = list(attrs)
+        zw[width] = None  # edges of the layout's own window: not asserted (as in `markup`)
+        if x0 > 0:
+            zw[0] = None
+        rows.append(row)
+        zws.append(zw)
+    return layout, rows, zws
+
+
+def _m_lr(rows, zws, left, right):
+    """model of CompositeCanvas.pad_trim_left_right: values < 0 trim, values > 0 pad (documented)"""
+    out_r, out_z = [], []
+    for row, zw in zip(rows, zws):
+        tl, tr = max(0, -left), max(0, -right)
+        n = len(row) - tl - tr
+        row = row[tl:tl + n]
+        z = {}
+        for b, v in zw.items():
+            nb = b - tl
+            if 0 <= nb <= n:
+                z[nb] = v
+        if tl:
+            z[0] = None  # window edge: not asserted
+        if tr:
+            z[n] = None
+        pl, pr = max(0, left), max(0, right)
+        if pl:
+            row = [("pad", None)] * pl + row
+            z = {b + pl: v for b, v in z.items()}
+        if pr:
+            row = row + [("pad", None)] * pr
+        out_r.append(row)
+        out_z.append(z)
+    return out_r, out_z
+
+
+def _m_tb(rows, zws, top, bottom):
+    tt, tb = max(0, -top), max(0, -bottom)
+    n = len(rows) - tt - tb
+    cols = len(rows[0])
+    rows, zws = rows[tt:tt + n], zws[tt:tt + n]
+    pt, pb = max(0, top), max(0, bottom)
+    rows = [[("pad", None)] * cols for _ in range(pt)] + rows + [[("pad", None)] * cols for _ in range(pb)]
+    zws = [{} for _ in range(pt)] + zws + [{} for _ in range(pb)]
+    return rows, zws
+
+
+def _m_map(rows, zws, mapping):
+    def m(a):
+        return mapping[a] if a in mapping else a
+
+    out_r = []
+    for row in rows:
+        r = []
+        for e in row:
+            k = e[0]
+            if k == "c":
+                r.append(("c", m(e[1]), tuple(m(a) for a in e[2]), e[3], e[4], e[5]))
+            elif k in ("pad", "mark", "top"):
+                r.append((k, m(e[1])))
+            else:
+                r.append(e)
+        out_r.append(r)
+    out_z = [{b: (None if v is None else [m(a) for a in v]) for b, v in zw.items()} for zw in zws]
+    return out_r, out_z
+
+
+def _compare_model(content, rows, zws, mode, what):
+    if len(content) != len(rows):
+        raise Violation("grid", f"{what}: {len(content)} rows, expected {len(rows)}")
+    for y, (runs, row, ezw) in enumerate(zip(content, rows, zws)):
+        acols, azw = decode_row(runs, mode, what, y)
+        n = len(row)
+        if len(acols) != n:
+            raise Violation("grid", f"{what}: row {y} occupies {len(acols)} columns, expected {n}: {runs!r}")
+        for c in range(n):
+            a_attr, a_half, a_w = acols[c]
+            e = row[c]
+            kind = e[0]
+            if kind == "pad":
+                if a_attr != e[1]:
+                    raise Violation(
+                        "padding-attr",
+                        f"{what}: row {y} column {c} is padding / fill and carries {a_attr!r}, expected {e[1]!r} "
+                        f"({runs!r})",
+                    )
+            elif kind == "top":
+                if a_attr != e[1]:
+                    raise Violation(
+                        "overlay-top-attr",
+                        f"{what}: row {y} column {c} belongs to the top widget (attribute {e[1]!r}) and carries "
+                        f"{a_attr!r} ({runs!r})",
+                    )
+            elif kind == "mark":
+                if a_attr != e[1]:
+                    raise Violation(
+                        "ellipsis-attr",
+                        f"{what}: row {y} column {c}: the ellipsis mark carries {a_attr!r}, the attribute at its "
+                        f"offset is {e[1]!r} (row {runs!r})",
+                    )
+            elif kind == "c":
+                _, e_attr, alts, e_half, e_w, cid = e
+                first = c - e_half
+                whole = first >= 0 and first + e_w <= n and all(
+                    row[q][0] == "c" and row[q][5] == cid for q in range(first, first + e_w)
+                )
+                if whole:
+                    if (a_half, a_w) != (e_half, e_w):
+                        _stat("skip:geometry-differs")
+                        continue
+                    if a_attr != e_attr:
+                        raise Violation(
+                            "char-attr",
+                            f"{what}: row {y} column {c} carries {a_attr!r}, the innermost tag of the character "
+                            f"shown there (through the maps) is {e_attr!r} (row {runs!r})",
+                        )
+                    _stat("clip:whole-character-cells")
+                else:
+                    # one half of a double-width character lies outside the window: a one-column stand-in
+                    if (a_half, a_w) != (0, 1):
+                        _stat("skip:geometry-differs")
+                        continue
+                    if a_attr != e_attr and a_attr not in alts:
+                        raise Violation(
+                            "clip-standin-attr",
+                            f"{what}: row {y} column {c} stands in for a double-width character cut by the window "
+                            f"edge and carries {a_attr!r}; the character's attribute (through the maps) is "
+                            f"{e_attr!r} (also accepted: {alts!r}) -- a neighbour's attribute was shifted onto it "
+                            f"(row {runs!r})",
+                        )
+                    _stat("clip:standin-cells")
+                    if a_attr == e_attr:
+                        _stat("clip:standin-cells-own-attr")
+            else:
+                _stat("skip:inserted-space-or-layout-cut")
+        for b in set(azw) | set(ezw):
+            exp = ezw.get(b, [])
+            if exp is None:
+                _stat("skip:zero-width-at-window-edge")
+                continue
+            got = azw.get(b, [])
+            if len(got) != len(exp):
+                _stat("skip:zero-width-count-differs")
+                continue
+            if got != exp:
+                raise Violation(
+                    "zero-width-attr",
+                    f"{what}: row {y}: zero-width characters after column {b - 1} carry {got!r}, their tags "
+                    f"(through the maps) say {exp!r} (row {runs!r})",
+                )
+
+
+VIAS = ("ops", "content", "overlay", "padclip")
+TOP_ATTR = "TOP"
+
+
+def _pairs_mapping(pairs):
+    return {dec_attr(k): dec_attr(v) for k, v in pairs}
+
+
+def check_clip(case):
+    """case: markup case + {"via": "ops"|"content"|"overlay"|"padclip", ...}
+    ops:     "ops": [["lr", l, r] | ["tb", t, b] | ["map", [[k, v], ...]] | ["fill", a], ...] on
+             CompositeCanvas(Text canvas); l/r/t/b < 0 trim (taken modulo what is left so that >= 1 column / row
+             stays), > 0 pad
+    content: "win": [trim_left, trim_top, cols, rows] (modulo the canvas size), "map": pairs | None
+             -> TextCanvas.content(trim_left, trim_top, cols, rows, attr)
+    overlay: "win": [left, top, cols, rows] rectangle covered by the top widget of an Overlay over
+             Filler(Text, 'top') (inside AttrMap(.., map) when "map" is given)
+    padclip: Padding(Text, align=palign, width='clip').render((cols,)); "width" of the case is not used"""
+    enc, is_bytes = case["enc"], bool(case["bytes"])
+    width, wrap, align, via = case["width"], case["wrap"], case["align"], case.get("via")
+    if enc not in ENCODINGS or wrap not in WRAPS or align not in ALIGNS or not isinstance(width, int) or width < 1:
+        raise Discard()
+    if via not in VIAS:
+        raise Discard()
+    mode = _set_encoding(enc)
+    src = source_of(case)
+    conv = (lambda s: s.encode(enc)) if is_bytes else (lambda s: s)
+    w = urwid.Text(build_markup(case["markup"], conv), align=align, wrap=wrap)
+    if via == "padclip":
+        # clipping mode renders the Text at its natural width: the longest line
+        width = src.max_pw
+        if width < 1:
+            raise Discard()
+        if w.pack(())[0] != width:
+            _stat("skip:pack-width-disagrees")
+            raise Discard()  # C06/C11's subject
+    layout, rows, zws = _base_model(src, w, width, mode)
+    what = f"[{enc} {wrap}/{align} width {width} via {via}] {src.text!r} markup {case['markup']!r}"
+    mapping = None
+    if case.get("map") is not None:
+        mapping = _pairs_mapping(case["map"])
+
+    def base_canvas():
+        canv = w.render((width,))
+        if canv.rows() != len(layout) or canv.cols() != width:
+            _stat("skip:rows-disagree-with-layout")
+            raise Discard()  # C03's subject
+        return canv
+
+    def window(win, ncols, nrows):
+        if not (isinstance(win, list) and len(win) == 4 and all(isinstance(v, int) for v in win)):
+            raise Discard()
+        left = win[0] % ncols
+        top = win[1] % nrows
+        return left, top, 1 + win[2] % (ncols - left), 1 + win[3] % (nrows - top)
+
+    if via == "content":
+        canv = base_canvas()
+        left, top, cols, nr = window(case["win"], width, len(rows))
+        what += f" content({left}, {top}, {cols}, {nr}, attr={mapping!r})"
+        rows, zws = _m_lr(rows, zws, -left, -(width - left - cols))
+        rows, zws = _m_tb(rows, zws, -top, -(len(rows) - top - nr))
+        if mapping is not None:
+            rows, zws = _m_map(rows, zws, mapping)
+        content = list(canv.content(left, top, cols, nr, dict(mapping) if mapping is not None else None))
+        _compare_model(content, rows, zws, mode, what)
+        return
+
+    if via == "ops":
+        comp = urwid.CompositeCanvas(base_canvas())
+        for i, op in enumerate(case.get("ops", [])):
+            k = op[0]
+            if k in ("lr", "tb"):
+                a, b = op[1], op[2]
+                if not (isinstance(a, int) and isinstance(b, int)) or a > 8 or b > 8:
+                    raise Discard()
+                size = len(rows[0]) if k == "lr" else len(rows)
+                if a < 0:
+                    a = -((-a) % size)
+                if b < 0:
+                    b = -((-b) % (size + min(a, 0)))
+                if k == "lr":
+                    comp.pad_trim_left_right(a, b)
+                    rows, zws = _m_lr(rows, zws, a, b)
+                else:
+                    comp.pad_trim_top_bottom(a, b)
+                    rows, zws = _m_tb(rows, zws, a, b)
+                step = f"{k}({a}, {b})"
+            elif k == "map":
+                mp = _pairs_mapping(op[1])
+                comp.fill_attr_apply(dict(mp))
+                rows, zws = _m_map(rows, zws, mp)
+                step = f"fill_attr_apply({mp!r})"
+            elif k == "fill":
+                a = dec_attr(op[1])
+                comp.fill_attr(a)
+                rows, zws = _m_map(rows, zws, {None: a})
+                step = f"fill_attr({a!r})"
+            else:
+                raise Discard()
+            what += " " + step
+            if comp.cols() != len(rows[0]) or comp.rows() != len(rows):
+                raise Violation("grid", f"{what}: canvas is {comp.cols()}x{comp.rows()}, expected "
+                                        f"{len(rows[0])}x{len(rows)}")
+            _compare_model(list(comp.content()), rows, zws, mode, what)
+        return
+
+    if via == "overlay":
+        nrows = len(rows)
+        left, top, cols, nr = window(case["win"], width, nrows)
+        what += f" Overlay top widget at columns {left}..{left + cols - 1}, rows {top}..{top + nr - 1}, map {mapping!r}"
+        if mapping is not None:
+            rows, zws = _m_map(rows, zws, mapping)
+        for y in range(top, top + nr):
+            rows[y] = rows[y][:left] + [("top", TOP_ATTR)] * cols + rows[y][left + cols:]
+            z = {b: v for b, v in zws[y].items() if not left <= b <= left + cols}
+            z[left] = None
+            z[left + cols] = None
+            zws[y] = z
+        if w.rows((width,)) != nrows:
+            _stat("skip:rows-disagree-with-layout")
+            raise Discard()  # C03's subject
+        bottom = urwid.Filler(w, "top")
+        if mapping is not None:
+            bottom = urwid.AttrMap(bottom, dict(mapping))
+        top_w = urwid.AttrMap(urwid.SolidFill("t"), TOP_ATTR)
+        with warnings.catch_warnings(record=True) as wlist:
+            warnings.simplefilter("always")
+            ov = urwid.Overlay(top_w, bottom, ("fixed left", left), cols, ("fixed top", top), nr)
+            canv = ov.render((width, nrows))
+        for wr in wlist:
+            if not issubclass(wr.category, (PendingDeprecationWarning, DeprecationWarning)):
+                raise Discard()  # a sizing warning: the case is mis-built
+        _compare_model(list(canv.content()), rows, zws, mode, what)
+        return
+
+    # padclip
+    cols, palign = case.get("cols"), case.get("palign")
+    if not isinstance(cols, int) or cols < 1 or palign not in ("left", "right"):
+        raise Discard()
+    what += f" Padding(align={palign!r}, width='clip').render(({cols},))"
+    # documented: "if align is 'left' then self.original_widget may be clipped on the right" (and padded there when
+    # narrower); 'right' mirrored.  'center' is not used (how the excess is split is C19's subject).
+    if palign == "left":
+        rows, zws = _m_lr(rows, zws, 0, cols - width)
+    else:
+        rows, zws = _m_lr(rows, zws, cols - width, 0)
+    with warnings.catch_warnings(record=True) as wlist:
+        warnings.simplefilter("always")
+        canv = urwid.Padding(w, align=palign, width="clip").render((cols,))
+    for wr in wlist:
+        if not issubclass(wr.category, (PendingDeprecationWarning, DeprecationWarning)):
+            raise Discard()
+    if canv.rows() != len(rows):
+        _stat("skip:rows-disagree-with-layout")
+        raise Discard()
+    _compare_model(list(canv.content()), rows, zws, mode, what)
 
 
 # ---------------------------------------------------------------------------------------------
@@ -993,6 +1379,8 @@ def check_sgr(case):
 SUBS = {
     "markup_short": check_markup,
     "markup": check_markup,
+    "clip_short": check_clip,
+    "clip": check_clip,
     "maps": check_maps,
     "sgr_sweep": check_sgr,
     "sgr": check_sgr,
@@ -1038,6 +1426,91 @@ def short_cases(ctx, maxlen, full):
                             for align in ALIGNS:
                                 yield {"enc": enc, "bytes": is_bytes, "markup": markup, "width": width,
                                        "wrap": wrap, "align": align}
+
+
+def clip_short_cases(ctx, maxlen, full):
+    """every window of every short per-character-tagged text, through every route"""
+    widths = range(1, 6) if full else range(1, 5)
+    wraps = WRAPS if full else ("any", "clip")
+    aligns = ALIGNS if full else ("left", "right")
+    for enc in ENCODINGS:
+        alpha = SHORT_ALPHABETS[enc] if full else SHORT_ALPHABETS[enc][:5]
+        idx = 0
+        for n in range(1, maxlen + 1):
+            for tup in itertools.product(alpha, repeat=n):
+                idx += 1
+                if not ctx.mine(idx):
+                    continue
+                tagged = ["L", *(["T", SHORT_ATTRS[k % 5], ch] for k, ch in enumerate(tup))]
+                forms = [(tagged, False), (tagged, True)]
+                if n >= 2:
+                    half = ["L", *((["T", SHORT_ATTRS[k % 5], ch] if k % 2 else ch) for k, ch in enumerate(tup))]
+                    forms.append((half, False))
+                    if full:
+                        forms.append((half, True))
+                natural = 0
+                for part in "".join(tup).split("\n"):
+                    natural = max(natural, sum(max(W.char_width(ch), 0) for ch in part))
+                for markup, is_bytes in forms:
+                    for wrap in wraps:
+                        for align in aligns:
+                            base = {"enc": enc, "bytes": is_bytes, "markup": markup, "wrap": wrap, "align": align}
+                            for width in widths:
+                                for left in range(width):
+                                    for cols in range(1, width - left + 1):
+                                        yield dict(base, width=width, via="content", win=[left, 0, cols - 1, -1],
+                                                   map=None)
+                                        yield dict(base, width=width, via="overlay", win=[left, 0, cols - 1, 0],
+                                                   map=None)
+                                        if n >= 2:
+                                            yield dict(base, width=width, via="overlay", win=[left, 1, cols - 1, 0],
+                                                       map=None)
+                                # every trim / pad-by-one combination of the two sides
+                                for l in range(-(width - 1), 2):
+                                    for r in range(-(width - 1), 2):
+                                        if max(0, -l) + max(0, -r) < width:
+                                            yield dict(base, width=width, via="ops", ops=[["lr", l, r]])
+                            for cols in range(1, natural + 2):
+                                for palign in ("left", "right"):
+                                    yield dict(base, width=1, via="padclip", cols=cols, palign=palign)
+
+
+def clip_nontrivial(case):
+    """a double-width character in a text with >= 2 attribute runs seen through a view that trims columns"""
+    try:
+        src = source_of(case)
+    except Discard:
+        return False
+    if not (src.has_wide and src.nruns >= 2):
+        return False
+    via = case.get("via")
+    if via == "ops":
+        return any(op[0] == "lr" and (op[1] < 0 or op[2] < 0) for op in case.get("ops", []))
+    if via == "padclip":
+        return case.get("cols", 0) < src.max_pw
+    return True
+
+
+def clip_classes(case):
+    out = [f"clip:via:{case.get('via')}", f"clip:{case['enc']}:{'bytes' if case['bytes'] else 'str'}"]
+    if case.get("map") is not None or any(op[0] in ("map", "fill") for op in case.get("ops", [])):
+        out.append("clip:with-map")
+    if case.get("via") == "ops":
+        ops = case.get("ops", [])
+        out.append(f"clip:ops:{min(len(ops), 4)}")
+        if any(op[0] in ("lr", "tb") and (op[1] > 0 or op[2] > 0) for op in ops):
+            out.append("clip:pads")
+        if any(op[0] == "tb" for op in ops):
+            out.append("clip:rows-trimmed-or-padded")
+    try:
+        src = source_of(case)
+    except Discard:
+        return out
+    if src.has_wide:
+        out.append("clip:double-width")
+    if src.has_zero:
+        out.append("clip:zero-width")
+    return out
 
 
 def markup_nontrivial(case):
@@ -1140,6 +1613,44 @@ def _build_markup_case(ints):
 
 def _markup_case_strategy():
     return _tape(70).map(_build_markup_case)
+
+
+def _gen_pairs(t):
+    return [[t.pick(ATTR_POOL), t.pick(_MAP_VALS)] for _ in range(t.next(5))]
+
+
+def _build_clip_case(ints):
+    t = _Tape(ints)
+    enc, is_bytes = t.pick(KINDS)
+    wrap, align = t.pick(WRAPS), t.pick(ALIGNS)
+    width = 1 + t.next(8) if t.next(4) else 1 + t.next(24)
+    via = t.pick(["ops", "ops", "content", "overlay", "padclip"])
+    case = {"enc": enc, "bytes": is_bytes, "markup": _gen_markup(t, _alphabet(enc, is_bytes), 4), "width": width,
+            "wrap": wrap, "align": align, "via": via}
+    if via == "ops":
+        ops = []
+        for _ in range(1 + t.next(4)):
+            k = t.next(6)
+            if k <= 2:
+                ops.append(["lr", t.next(12) - 9, t.next(12) - 9])  # -9..2: mostly trims, some pads
+            elif k == 3:
+                ops.append(["tb", t.next(6) - 3, t.next(6) - 3])
+            elif k == 4:
+                ops.append(["map", _gen_pairs(t)])
+            else:
+                ops.append(["fill", t.pick(_MAP_VALS)])
+        case["ops"] = ops
+    elif via == "padclip":
+        case["cols"] = 1 + t.next(12)
+        case["palign"] = t.pick(["left", "right"])
+    else:
+        case["win"] = [t.next(24), t.next(4), t.next(24), t.next(4)]
+        case["map"] = _gen_pairs(t) if t.next(3) == 0 else None
+    return case
+
+
+def _clip_case_strategy():
+    return _tape(90).map(_build_clip_case)
 
 
 _MAP_VALS = MAP_TARGETS + ATTR_POOL[1:4]
@@ -1447,6 +1958,17 @@ def shard(ctx):
                   exhaustive_name=f"per-character tags: strings of length <= {maxlen} over {6 if full else 5} letters x "
                                   f"width 1..{6 if full else 4} x wrap x align x str/bytes x 3 encodings",
                   stride=False)
+    if ctx.failure is None:
+        cl = ctx.scale(3, 4)
+        ctx.sweep("clip_short", clip_short_cases(ctx, cl, full), nontrivial=clip_nontrivial, classify=None,
+                  exhaustive_name=f"clipped views: per-character tags, strings of length <= {cl} over "
+                                  f"{6 if full else 5} letters x width 1..{5 if full else 4} x every column window "
+                                  f"(content / Overlay), every trim-or-pad-by-one pair (pad_trim_left_right), every "
+                                  f"Padding clip width",
+                  stride=False)
+    if ctx.failure is None:
+        ctx.given("clip", _clip_case_strategy(), ctx.scale(1500, 30000), nontrivial=clip_nontrivial,
+                  classify=clip_classes)
     if ctx.failure is None:
         ctx.given("maps", _maps_case_strategy(), ctx.scale(1200, 30000), nontrivial=maps_nontrivial, classify=maps_classes)
     if ctx.failure is None:
